@@ -19,19 +19,26 @@ _FN = {
 }
 
 
-def to_sympy(ast, dt):
+def sym(name, assume=None):
+    """the sympy symbol for a name; `assume`: {name or "*": {assumption: bool}} (a definition's "assume" record) - users may
+    declare their symbols with sympy assumptions (real=True, ...), which makes them DIFFERENT objects from Symbol(name)"""
+    a = (assume or {}).get(name, (assume or {}).get("*", {}))
+    return sympy.Symbol(name, **a)
+
+
+def to_sympy(ast, dt, assume=None):
     t = ast[0]
     if t == "sym":
-        return sympy.Symbol(ast[1])
+        return sym(ast[1], assume)
     if t == "dt":
         return dt
     if t == "const":
         return sympy.Rational(ast[1], ast[2])
     if t == "fn":
-        return _FN[ast[1]](to_sympy(ast[2], dt))
+        return _FN[ast[1]](to_sympy(ast[2], dt, assume))
     if t == "pow":
-        return sympy.Pow(to_sympy(ast[1], dt), sympy.Integer(ast[2]))
-    a, b = to_sympy(ast[1], dt), to_sympy(ast[2], dt)
+        return sympy.Pow(to_sympy(ast[1], dt, assume), sympy.Integer(ast[2]))
+    a, b = to_sympy(ast[1], dt, assume), to_sympy(ast[2], dt, assume)
     if t == "add":
         return a + b
     if t == "sub":
@@ -43,37 +50,39 @@ def to_sympy(ast, dt):
     raise ValueError(t)
 
 
-def _container(names, kind):
-    syms = [sympy.Symbol(n) for n in names]
+def _container(names, kind, assume=None):
+    syms = [sym(n, assume) for n in names]
     return set(syms) if kind == "set" else list(syms)
 
 
 def ui_model(d):
-    dt = sympy.Symbol("dt")
+    A = d.get("assume")
+    dt = sym("dt", A)
     sm = {}
     for k, a in d["model"]:
-        e = to_sympy(a, dt)
-        sm[sympy.Symbol(k)] = str(e) if d.get("as_strings") else e
+        e = to_sympy(a, dt, A)
+        sm[sym(k, A)] = str(e) if d.get("as_strings") else e
     return ui.Model(
         dt=dt,
-        state=_container(d["state"], d["container"]),
-        control=_container(d["control"], d["container"]),
+        state=_container(d["state"], d["container"], A),
+        control=_container(d["control"], d["container"], A),
         state_model=sm,
-        calibration=set(sympy.Symbol(n) for n in d["calibration"]),  # documented as a set (default set())
+        calibration=set(sym(n, A) for n in d["calibration"]),  # documented as a set (default set())
     )
 
 
 def calmap(d):
-    return {sympy.Symbol(k): v for k, v in d["calmap"]}
+    return {sym(k, d.get("assume")): v for k, v in d["calmap"]}
 
 
 def pnoise(d):
-    return {sympy.Symbol(k): v for k, v in d["pnoise"]}
+    return {sym(k, d.get("assume")): v for k, v in d["pnoise"]}
 
 
 def sensors(d):
-    dt = sympy.Symbol("dt")
-    return {k: {r: to_sympy(a, dt) for r, a in rs} for k, rs in d["sensors"]}
+    A = d.get("assume")
+    dt = sym("dt", A)
+    return {k: {r: to_sympy(a, dt, A) for r, a in rs} for k, rs in d["sensors"]}
 
 
 def snoise(d):
